@@ -206,6 +206,9 @@ def family():
             if sk[0] == "text":
               sk[2] = sk[2].lower()
             else:
+              # the second paragraph keeps its timing flags but takes its region from the p (keeps the path tree finite
+              # within the thorough budget: every r? is a three-way selector)
+              sk[1] = sk[1].replace(" r?", "").replace("r?", "")
               for c in (sk[2] if len(sk) > 2 else []):
                 ren(c)
           for s in in2:
@@ -213,7 +216,7 @@ def family():
           ps.append(["p", "e r?", in2])
         div = ["div", "b r?", ps]
         if nest:
-          div = ["div", "e r?", [div]]
+          div = ["div", "e", [div]]
         out.append(("gen-%d" % n, [["r1", "b e"], ["r2", ""]], ["body", "e", [div]]))
         n += 1
   _FAMILY = out
